@@ -238,6 +238,10 @@ fn pinned_programs() -> Vec<(&'static str, Vec<Stmt>)> {
             emit(loopattr("index")), t(":"), emit(loopattr("revindex")), t(":"), emit(loopattr("first")), t(":"), emit(loopattr("last")),
             t(":"), emit(loopattr("previtem")), t(":"), emit(loopattr("nextitem")), t(";"),
         ], None)]),
+        // a string is iterated character by character and the loop knows its length
+        ("loop_over_string", vec![for_(name("x"), v("cs"), None, vec![
+            emit(v("x")), t(":"), emit(loopattr("index")), t("/"), emit(loopattr("length")), t(":"), emit(loopattr("revindex")), t(":"), emit(loopattr("last")), t(";"),
+        ], Some(vec![t("empty")]))]),
         ("set_in_loop_is_local", vec![
             Stmt::Set { target: name("found"), value: Expr::Bool(false) },
             for_(name("x"), v("cl"), None, vec![Stmt::Set { target: name("found"), value: Expr::Bool(true) }], None),
